@@ -83,3 +83,6 @@ addfile("F41","C03","fixed","archive-fails",
 addfile("F42","C11","fixed","hang",
     "parallelgzip: two callers read /t (one record) with a buffer of exactly its size and keep their handles open while a third calls Stat: pgzip's WriterTo ends with an empty write, an empty write to the read path's pipe parks the restore (drive + read lock held) although every byte has been delivered; the next call that needs the drive deadlocks the instance (found when the readers template started to read exact sizes, prompted by seeded change S-C11g)",
     commit="a file that has been read to its last byte no longer keeps the drive")
+addfile("F43","C17","fixed","unexpected-entry-after-member-calls",
+    "foreign archive written with absolute member names under a named top directory (tar -P): its directories are indexed with a trailing slash; RemoveAll of such a directory returned nil and removed nothing (Delete looked the exact name up only, RemoveAll treats 'no rows' like a missing path) - side remark of a sub-agent, reproduced once C17 generated that root style",
+    commit="RemoveAll removes directories that are indexed with a trailing slash")
